@@ -113,8 +113,19 @@ def extract_writer(f: FunctionInfo) -> Optional[Dispatch]:
         if not isinstance(loop.target, ast.Name):
             continue
         var = loop.target.id
+        # the dispatch subject is gate.name, or a local name initialised from gate.name in the loop body
+        # (so that a multi-controlled CNOT can be re-dispatched as CX without writing to the source gate)
+        local_names = set()
+        for st in loop.body:
+            for n in ast.walk(st):
+                if isinstance(n, ast.Assign) and len(n.targets) == 1 and isinstance(n.targets[0], ast.Name) and \
+                        isinstance(n.value, ast.Attribute) and n.value.attr == "name" and isinstance(n.value.value, ast.Name) \
+                        and n.value.value.id == var:
+                    local_names.add(n.targets[0].id)
 
-        def pred(e, var=var):
+        def pred(e, var=var, local_names=local_names):
+            if isinstance(e, ast.Name) and e.id in local_names:
+                return True
             return isinstance(e, ast.Attribute) and e.attr == "name" and isinstance(e.value, ast.Name) and e.value.id == var
         for i, st in enumerate(loop.body):
             if isinstance(st, ast.If):
